@@ -665,6 +665,15 @@ def run_race_check(prop, tier, seed):
         print('\n'.join('    ' + l for l in report.splitlines()[:24]))
         reported.append(dict(rule='data-race', key=key, seed=s0, replay=path))
     agg = summarize(lines)
+    # L1 mode has no scheduling points inside the library, so "non-trivial" is judged on the program:
+    # at least two client threads that issue calls (or build configurations) run concurrently
+    nt = set()
+    for l in lines:
+        prog = (l.get('Replay') or {}).get('Program') or {}
+        busy = sum(1 for th in prog.get('Threads') or [] if any(op.get('Kind') in ('call', 'newcfg', 'inspect-loop', 'close') for op in th.get('Ops') or []))
+        if busy >= 2:
+            nt.add(l['SchedSig'])
+    agg['distinct_nontrivial'] = len(nt)
     wall = time.time() - t0
     samples = []
     for l in lines[:3]:
@@ -674,7 +683,7 @@ def run_race_check(prop, tier, seed):
               assumptions=['the Go race detector is sound for the accesses that execute (happens-before based); the dsync redirection (TryLock polling) creates no extra happens-before edges',
                            'harness tasks are not scheduled one at a time in this mode, so harness synchronisation does not order library accesses'],
               coverage=dict(evaluations=len(lines), distinct_nontrivial=agg['distinct_nontrivial'],
-                            rule='one evaluation = one simulated run of the widest swarm profile in its own OS process under -race (L1 mode: simulated network, clock, puppets, faults; goroutine interleaving left to the Go runtime, 4 Ps). distinct = distinct schedule signature of the driver actions; non-trivial as for the other checks.',
+                            rule='one evaluation = one simulated run of the widest swarm profile in its own OS process under -race (L1 mode: simulated network, clock, puppets, faults; goroutine interleaving left to the Go runtime, 4 Ps). distinct = distinct signature of the sequence of driver actions (network deliveries, connects, faults, cancellations, ticks); non-trivial = at least two client threads of the program issue calls / build configurations / close concurrently (the library has no scheduling points in this mode).',
                             samples=samples or [dict(note='none')], exhaustive=False, runs_per_hour=int(len(lines) / wall * 3600) if wall > 0 else 0,
                             steps_total=agg['steps'], calls_total=agg['calls'], sim_time_s_total=round(agg['sim_ms'] / 1000.0, 1), faults_fired=agg['faults'], network=agg['net'], probes=agg['probes'],
                             race_reports_with_library_frames={k: len(v) for k, v in found.items()}, harness_only_race_reports=harness_total,
@@ -831,7 +840,12 @@ def selftest(nseeds, profile='C01'):
     print('selftest profile=%s seeds=%d executions=%d divergences=%d' % (profile, len(ref), total, len(div)))
     for d in div[:20]:
         print('  DIVERGED seed=%d ref=%s got=%s (GOMAXPROCS=%s workers=%d)' % d)
+    SELFTEST_RESULTS[profile] = dict(seeds=len(ref), executions=total, divergences=len(div), diverged_seeds=sorted(set(d[0] for d in div))[:20], tree_hash=th,
+                                     configurations='GOMAXPROCS/workers: 1/1, 4/4, 16/16, 2/16; each execution in a fresh OS process; compared: hash of the full event log and step count')
     return 0 if not div else 2
+
+
+SELFTEST_RESULTS = {}
 
 
 def sweep(profile, n, seed0=1, mode='L2'):
@@ -919,6 +933,7 @@ def main(argv):
         rc = 0
         for prof in (argv[2:] or ['C01', 'C09']):
             rc |= selftest(n, prof)
+        json.dump(dict(when=time.strftime('%Y-%m-%dT%H:%M:%SZ', time.gmtime()), results=SELFTEST_RESULTS), open(os.path.join(VERIF, 'selftest.json'), 'w'), indent=1)
         return rc
     if cmd == 'sweep':
         return sweep(argv[1], int(argv[2]), int(argv[3]) if len(argv) > 3 else 1, argv[4] if len(argv) > 4 else 'L2')
